@@ -39,4 +39,12 @@ def obligations(tier):
                 stub_realloc=False, functions=['snappy_emit_copy'], bounds='every offset in [1, SNAPPY_MAX_OFFSET] and every match length 4..200 (symbolic)'))
     o.append(E1('lemma/snappy-emit-literal', 'harness/e1/c09_emit.c', [], ['-DMODE=2'], unwind=72, timeout=300, includes_source=['src/compression/snappy.c'],
                 stub_realloc=False, functions=['snappy_emit_literal'], bounds='every literal of 1..70 symbolic bytes'))
+    # decoder halves of the round trip beyond the reach of the bounded compress -> decompress runs: carquet's decompressors on streams of an
+    # independent script encoder with match offsets 1..15 and match lengths 16..20 (wide-copy fast paths); obligations shared with C10
+    # (added after seeded C09-lz4-decode-16byte-chunks, which the n <= 24 round trips cannot reach)
+    from props import C10_e1
+    for codec in (1, 0):
+        s = C10_e1.script(codec, 2, 15, 20, timeout=900, lit0=15, cpmin=16)
+        s.name = 'decoder/' + s.name
+        o.append(s)
     return o
